@@ -8,7 +8,7 @@ open UtpVerif.Model UtpVerif.Model.Disp
 inductive CallSt where
   | waiting
   | blocked                       -- accept(): still waiting for room in the acceptor channel
-  | readyOk (remote : Nat)
+  | readyOk (remote : Nat) (k : Key) (inst : Nat)
   | readyErr (text : String)
   | done
 deriving Repr, DecidableEq
@@ -19,6 +19,11 @@ structure SockSt where
   inbox : List (Nat × List Nat) := []
   connects : List (Nat × Nat × CallSt) := []     -- id ↦ (addr, state)
   accepts : List (Nat × CallSt) := []
+  -- tokio's bounded acceptor channel: free permits, and senders waiting for one (FIFO; a freed permit is
+  -- handed to the first waiter, which enqueues its message when it is polled next)
+  permits : Nat := Gen.ACCEPT_QUEUE_MAX_ACCEPTORS
+  waiters : List (Nat × Bool) := []
+  parked : Bool := false      -- a `run_once` is waiting inside `select!` (its clean-up already done)
 
 def insSorted (s : String) : List String → List String
   | [] => [s]
@@ -29,7 +34,7 @@ def sortStrs (l : List String) : List String := l.foldl (fun acc s => insSorted 
 def addrStr (p : Nat) : String := s!"127.0.0.1:{p}"
 
 def sockFp (s : SockSt) (d : Disp) : String :=
-  let streams := sortStrs (d.streams.map (fun k => s!"{addrStr k.addr}/{k.id}" ++ (if d.deadStreams.contains k then "/dead" else "")))
+  let streams := sortStrs (d.streams.map (fun (k, inst) => s!"{addrStr k.addr}/{k.id}" ++ (if d.deadStreams.contains inst then "/dead" else "")))
   let connecting := sortStrs (d.connecting.map (fun (a, slots) =>
     let ss := slots.map (fun o => match o with
       | some c => toString c.seqNr ++ (if d.deadReq.contains c.token then "x" else "")
@@ -48,31 +53,82 @@ def setCall {α} (l : List (Nat × α)) (i : Nat) (v : α) : List (Nat × α) :=
 
 def applyEff (s : SockSt) (e : Eff) : SockSt :=
   match e with
-  | .connectOk token k =>
-    { s with connects := s.connects.map (fun (j, a, st) => if j = token ∧ st = .waiting then (j, a, .readyOk k.addr) else (j, a, st)) }
+  | .connectOk token k inst =>
+    { s with connects := s.connects.map (fun (j, a, st) => if j = token ∧ st = .waiting then (j, a, .readyOk k.addr k inst) else (j, a, st)) }
   | .connectErr token err =>
     { s with connects := s.connects.map (fun (j, a, st) => if j = token ∧ st = .waiting then (j, a, .readyErr (errText err)) else (j, a, st)) }
-  | .accepted acc _ remote =>
-    { s with accepts := s.accepts.map (fun (j, st) => if j = acc ∧ st = .waiting then (j, .readyOk remote) else (j, st)) }
+  | .accepted acc k remote inst =>
+    { s with accepts := s.accepts.map (fun (j, st) => if j = acc ∧ st = .waiting then (j, .readyOk remote k inst) else (j, st)) }
   | _ => s
 
 def effOut (effs : List Eff) : String :=
   let outs := effs.filterMap (fun e => match e with | .sent to b => some s!"{to}:{toHex b}" | _ => none)
   s!"out=[{",".intercalate outs}]"
 
+/-- one permit comes back: to the first waiter that has none, else to the pool -/
+def releasePermit (s : SockSt) : SockSt :=
+  let rec go : List (Nat × Bool) → Option (List (Nat × Bool))
+    | [] => none
+    | (i, true) :: rest => (go rest).map ((i, true) :: ·)
+    | (i, false) :: rest => some ((i, true) :: rest)
+  match go s.waiters with
+  | some w => { s with waiters := w }
+  | none => { s with permits := s.permits + 1 }
+
+def releaseN : Nat → SockSt → SockSt
+  | 0, s => s
+  | n + 1, s => releaseN n (releasePermit s)
+
+def fpOrParked (s : SockSt) (d : Disp) : String := if s.parked then "-" else sockFp s d
+
 def finish (s : SockSt) (d : Disp) (head : String) (effs : List Eff) : SockSt × String :=
+  -- acceptors the dispatcher took out of the channel give their permits back
+  let before := match s.d with | some d0 => d0.accChan.length | none => 0
+  let s := releaseN (before - d.accChan.length) s
   let s := effs.foldl applyEff { s with d := some d }
-  (s, s!"{head} {effOut effs} fp={sockFp s d}")
+  (s, s!"{head} {effOut effs} fp={fpOrParked s d}")
+
+/-- the send completes: the acceptor is now in the channel (bypasses `finish`'s permit accounting) -/
+def enqueueAcc (s : SockSt) (d : Disp) (i : Nat) : SockSt × String :=
+  let d' := { d with accChan := d.accChan ++ [{ id := i }] }
+  let s := { s with d := some d' }
+  (s, s!"pending {effOut []} fp={fpOrParked s d'}")
 
 def pollCall (st : CallSt) : CallSt × String :=
   match st with
   | .waiting => (.waiting, "pending")
   | .blocked => (.blocked, "pending")
-  | .readyOk r => (.done, s!"ok remote={r}")
+  | .readyOk r _ _ => (.done, s!"ok remote={r}")
   | .readyErr t => (.done, s!"err:{t}")
   | .done => (.done, "done")
 
 def parseNatList (s : String) : List Nat := (s.splitOn ",").filterMap String.toNat?
+
+/-- one whole `run_once` iteration; `rest` may carry `b=<branch>` (the branch the implementation's select! took) -/
+def stepRun (s : SockSt) (d : Disp) (rest : List String) : SockSt × String :=
+  -- which sources are ready (after the clean-up, as `select!` sees them)
+  let (dc, _) := d.cleanupAcceptQueue
+  let accReady := dc.nextAcceptor.isNone ∧ ¬ dc.accChan.isEmpty
+  let ctlReady := ¬ s.ctl.isEmpty
+  let recvReady := ¬ s.inbox.isEmpty
+  let branch := match rest with
+    | [b] => (b.drop 2).toString
+    | _ => if ctlReady then "ctl" else if recvReady then "recv" else if accReady then "acc" else "idle"
+  match branch with
+  | "ctl" =>
+    match s.ctl with
+    | c :: cs => let (d', effs) := d.runOnce (.control c); finish { s with ctl := cs } d' "ctl" effs
+    | [] => (s, "bad-branch")
+  | "recv" =>
+    match s.inbox with
+    | (a, b) :: rest => let (d', effs) := d.runOnce (.datagram a b); finish { s with inbox := rest } d' "recv" effs
+    | [] => (s, "bad-branch")
+  | "acc" =>
+    if accReady then let (d', effs) := d.runOnce .acceptor; finish s d' "acc" effs else (s, "bad-branch")
+  | "idle" =>
+    if ctlReady ∨ recvReady ∨ accReady then (s, "bad-branch") else
+    let (d', effs) := d.runOnce .idle; finish s d' "idle" effs
+  | _ => (s, "bad-op")
 
 def stepSock (s : SockSt) (args : List String) : SockSt × String :=
   match args with
@@ -90,7 +146,34 @@ def stepSock (s : SockSt) (args : List String) : SockSt × String :=
     match s.d with
     | none => (s, "bad-op")
     | some d =>
+      let allowed : Bool := match args with
+        | ["accept", _] | ["inject", _, _] => true
+        | "resume" :: _ => s.parked
+        | _ => !s.parked
+      if !allowed then (s, "bad-op") else
       match args with
+      | "park" :: rest =>
+        let (dc, e0) := d.cleanupAcceptQueue
+        let accReady := dc.nextAcceptor.isNone ∧ ¬ dc.accChan.isEmpty
+        if ¬ s.ctl.isEmpty ∨ ¬ s.inbox.isEmpty ∨ accReady then stepRun s d rest     -- something is ready: an ordinary iteration
+        else
+          let (s', _) := finish s dc "parked" e0
+          ({ s' with parked := true }, s!"parked {effOut e0} fp=-")
+      | "resume" :: rest =>
+        let accReady := d.nextAcceptor.isNone ∧ ¬ d.accChan.isEmpty
+        let recvReady := ¬ s.inbox.isEmpty
+        let branch := match rest with
+          | [b] => (b.drop 2).toString
+          | _ => if recvReady then "recv" else if accReady then "acc" else "parked"
+        match branch with
+        | "recv" =>
+          match s.inbox with
+          | (a, b) :: rest => let (d', effs) := d.handle (.datagram a b); finish { s with inbox := rest, parked := false } d' "recv" effs
+          | [] => (s, "bad-branch")
+        | "acc" =>
+          if accReady then let (d', effs) := d.handle .acceptor; finish { s with parked := false } d' "acc" effs else (s, "bad-branch")
+        | "parked" => if recvReady ∨ accReady then (s, "bad-branch") else (s, "parked out=[] fp=-")
+        | _ => (s, "bad-op")
       | ["rand", l] => finish s { d with rnd := d.rnd ++ parseNatList l } "ok" []
       | ["tmode", m] =>
         match m with
@@ -108,20 +191,25 @@ def stepSock (s : SockSt) (args : List String) : SockSt × String :=
         match nat? i with
         | some i =>
           if s.accepts.any (·.1 = i) then (s, "bad-op") else
-          if d.accChan.length ≥ Gen.ACCEPT_QUEUE_MAX_ACCEPTORS then
-            finish { s with accepts := s.accepts ++ [(i, .blocked)] } d "blocked" []
+          if s.permits = 0 then
+            finish { s with accepts := s.accepts ++ [(i, .blocked)], waiters := s.waiters ++ [(i, false)] } d (if s.parked then "pending" else "blocked") []
           else
-            finish { s with accepts := s.accepts ++ [(i, .waiting)] } { d with accChan := d.accChan ++ [{ id := i }] } "pending" []
+            enqueueAcc { s with accepts := s.accepts ++ [(i, .waiting)], permits := s.permits - 1 } d i
         | none => (s, "bad-op")
       | ["pollconn", i] =>
         match (nat? i).bind (fun i => s.connects.find? (·.1 = i)) with
         | some (i, a, st) =>
           let (st', out) := pollCall st
-          finish { s with connects := s.connects.map (fun (j, b, x) => if j = i then (j, a, st') else (j, b, x)) } d out []
+          -- `rx.await` failing (the request was dropped unanswered) returns through `?` with the drop guard still armed
+          let extra := if st = .readyErr (errText .dispatcherDead) then [Ctl.connectDropped a i] else []
+          finish { s with ctl := s.ctl ++ extra, connects := s.connects.map (fun (j, b, x) => if j = i then (j, a, st') else (j, b, x)) } d out []
         | none => (s, "bad-op")
       | ["pollacc", i] =>
         match (nat? i).bind (fun i => s.accepts.find? (·.1 = i)) with
         | some (i, st) =>
+          if st = .blocked ∧ s.waiters.contains (i, true) then
+            enqueueAcc { s with accepts := setCall s.accepts i .waiting, waiters := s.waiters.filter (·.1 ≠ i) } d i
+          else
           let (st', out) := pollCall st
           finish { s with accepts := setCall s.accepts i st' } d out []
         | none => (s, "bad-op")
@@ -137,8 +225,17 @@ def stepSock (s : SockSt) (args : List String) : SockSt × String :=
         match (nat? i).bind (fun i => s.accepts.find? (·.1 = i)) with
         | some (i, st) =>
           let s' := { s with accepts := setCall s.accepts i .done }
-          if st = .done ∨ st = .blocked then finish s' d "ok" [] else
-          finish s' { d with deadAcc := d.deadAcc ++ [i] } "ok" []
+          match st with
+          | .done => finish s' d "ok" []
+          | .blocked =>
+            let had := s'.waiters.contains (i, true)
+            let s'' := { s' with waiters := s'.waiters.filter (·.1 ≠ i) }
+            finish (if had then releasePermit s'' else s'') d "ok" []
+          | .readyOk _ k inst =>
+            -- the answer (a not yet started connection) is dropped with the future: its task state dies and its
+            -- drop guard asks the dispatcher to forget the key
+            finish { s' with ctl := s'.ctl ++ [.shutdown k] } { d with deadStreams := d.deadStreams ++ [inst] } "ok" []
+          | _ => finish s' { d with deadAcc := d.deadAcc ++ [i] } "ok" []
         | none => (s, "bad-op")
       | ["inject", port, hx] =>
         match nat? port, hex? hx with
@@ -152,30 +249,7 @@ def stepSock (s : SockSt) (args : List String) : SockSt × String :=
           if port ≥ 65536 ∨ id ≥ 65536 then (s, "bad-op") else
           finish { s with ctl := s.ctl ++ [.shutdown { addr := port, id := id }] } d "ok" []
         | _, _ => (s, "bad-op")
-      | "run" :: rest =>
-        -- which sources are ready (after the clean-up, as `select!` sees them)
-        let (dc, _) := d.cleanupAcceptQueue
-        let accReady := dc.nextAcceptor.isNone ∧ ¬ dc.accChan.isEmpty
-        let ctlReady := ¬ s.ctl.isEmpty
-        let recvReady := ¬ s.inbox.isEmpty
-        let branch := match rest with
-          | [b] => (b.drop 2).toString
-          | _ => if ctlReady then "ctl" else if recvReady then "recv" else if accReady then "acc" else "idle"
-        match branch with
-        | "ctl" =>
-          match s.ctl with
-          | c :: cs => let (d', effs) := d.runOnce (.control c); finish { s with ctl := cs } d' "ctl" effs
-          | [] => (s, "bad-branch")
-        | "recv" =>
-          match s.inbox with
-          | (a, b) :: rest => let (d', effs) := d.runOnce (.datagram a b); finish { s with inbox := rest } d' "recv" effs
-          | [] => (s, "bad-branch")
-        | "acc" =>
-          if accReady then let (d', effs) := d.runOnce .acceptor; finish s d' "acc" effs else (s, "bad-branch")
-        | "idle" =>
-          if ctlReady ∨ recvReady ∨ accReady then (s, "bad-branch") else
-          let (d', effs) := d.runOnce .idle; finish s d' "idle" effs
-        | _ => (s, "bad-op")
+      | "run" :: rest => stepRun s d rest
       | ["fp"] => finish s d "ok" []
       | _ => (s, "bad-op")
 
